@@ -903,7 +903,13 @@ def run(out, ctx):
                         except Exception as e:  # noqa: BLE001
                             import traceback
                             out.case(dict(short(case), settings=vname), True, label="settings=%s" % vname)
-                            out.fail("impl-exception:%s:%s:%s@%s" % (case["strat"], case["dist"], type(e).__name__, vname),
+                            tb_ = traceback.format_exc()
+                            upstream = "add_low_rank" in tb_ and "kernels/kernel.py" in tb_ and vname == "max_cholesky_size_0"
+                            # (upstream: evaluating an AdditiveKernel with a LinearKernel term adds a RootLinearOperator to a
+                            # DenseLinearOperator; linear_operator then builds Lanczos root decompositions of the dense term,
+                            # which break down on a near-identity block depending on the random probe vector)
+                            out.fail("upstream:linear_operator:kernel-sum:add_low_rank:%s@%s" % (type(e).__name__, vname) if upstream else
+                                     "impl-exception:%s:%s:%s@%s" % (case["strat"], case["dist"], type(e).__name__, vname),
                                      "implementation raised %r under gpytorch.settings %s\n%s" % (e, vname, traceback.format_exc()[-800:]),
                                      dict(short(case), settings=vname))
                     variant_seconds[0] += _t.time() - _tv
